@@ -679,6 +679,57 @@ def run(ctx):
             elif r0["op"] == "kk" and r0["polls"] < 2:
                 failures.append({"case": case, "why": "the key-keeper task stopped polling after a reply announcing Content-Length %d" % n, "impl": r0, "site": None, "panics": []})
 
+    # ================= liveness legs, each in its own child process =================
+    def run_child(case, env, timeout):
+        scr = os.path.join(ctx.scratch, "child_%s" % case["op"])
+        os.makedirs(scr, exist_ok=True)
+        try:
+            p = subprocess.run([drv], input=json.dumps(case) + "\n", capture_output=True, text=True, timeout=timeout,
+                               env=dict(os.environ, C13_SCRATCH=scr, **env))
+            rs = [json.loads(l[6:]) for l in p.stdout.split("\n") if l.startswith("@@C13 ")]
+            return p.returncode, (rs[0] if rs else None), p.stderr[-300:]
+        except subprocess.TimeoutExpired:
+            return 124, None, "timeout after %ds" % timeout
+    # (a) the listener keeps serving while one caller's host connect is pending (destination drops SYNs)
+    ctx.log("listener liveness leg")
+    rc, lr, err = run_child({"id": 0, "op": "live", "bound_ms": 30000}, {"C13_NO_EVENT_LOOP": "1"}, 400)
+    total += 1
+    live_case = {"op": "live", "scenario": "caller A -> destination whose accept queue is full (SYNs dropped); 300 ms later callers B and C -> healthy destination"}
+    if lr is None:
+        failures.append({"case": live_case, "why": "the process running the listener ended abnormally / hung (exit %s): %s" % (rc, err), "impl": err, "site": None, "panics": []})
+    elif not (lr["blackhole_full"] and lr["listening"] and lr["a_pending"]):
+        ctx.notes.append("liveness leg: the black-hole destination could not be established (%s); leg skipped" % {k: lr[k] for k in ("blackhole_full", "listening", "a_pending")})
+    else:
+        dist["live_b_ms"] = lr["b_ms"]
+        if lr["panics"]:
+            n_panics += 1
+        if lr["b_answer"] is None or lr["c_answer"] is None or lr["panics"]:
+            failures.append({"case": live_case, "why": "the listener stopped serving other callers while one caller's host connect was pending "
+                             "(caller B answered: %s, caller C answered: %s within 30 s; A still pending)" % (lr["b_answer"] is not None, lr["c_answer"] is not None),
+                             "impl": lr, "site": None, "panics": lr["panics"]})
+    # (b) no task spins without yielding: the real telemetry reader on a current-thread runtime over event
+    # files the real event logger wrote from escape-dense messages cut at ITS OWN limit (regenerated MAXM)
+    ctx.log("telemetry reader leg")
+    units = ["'", '"', "&", "<", ">", "a", "&'é", "%27'", "<&>\"'", "日本'"]
+    tel_case = {"id": 0, "op": "telrun", "units": units, "mult": 4, "bound_ms": 90000}
+    rc, tr, err = run_child(tel_case, {"C13_THREADS": "0"}, 400)
+    total += 1
+    tel_desc = {"op": "telrun", "units": units, "message_length": "4 x MAX_MESSAGE_LENGTH (cut by write_event)", "runtime": "current_thread"}
+    if tr is None:
+        failures.append({"case": tel_desc, "why": "the process running the telemetry reader ended abnormally / hung (exit %s): %s" % (rc, err), "impl": err, "site": None, "panics": []})
+    else:
+        if tr.get("max_message_length") not in (None, MAXM):
+            disagreements.append({"case": tel_desc, "model": {"max_message_length": MAXM}, "impl": tr})
+        if tr.get("hung"):
+            failures.append({"case": tel_desc, "why": "a task span without yielding: the telemetry reader froze the current-thread runtime for more than %d s over event files with escape-dense %d-byte messages" % (
+                tr["bound_ms"] // 1000, MAXM), "impl": tr, "site": None, "panics": tr.get("panics", [])})
+        elif tr["panics"] or tr["reader_ended"] or tr["files_left"] > 0 or tr["posts"] == 0:
+            if tr["panics"]:
+                n_panics += 1
+            failures.append({"case": tel_desc, "why": "the telemetry reader did not get through the event files (files left %d, POSTs %d, reader ended %s, panics %s)" % (
+                tr["files_left"], tr["posts"], tr["reader_ended"], [p["loc"] for p in tr["panics"]][:2]), "impl": tr, "site": None, "panics": tr["panics"]})
+        dist["telemetry_reader"] = {k: tr.get(k) for k in ("events_written", "longest_queued", "files_before", "posts", "heartbeats", "elapsed_ms")}
+
     # ================= the real listener (shared end-to-end runner) =================
     ctx.log("e2e leg")
     e2e_n = 0
@@ -805,6 +856,29 @@ def e2e_leg(ctx, form, MAXM, MAXE, disagreements, failures, dist, limit=102400):
             pid = hostile_process(arg)
             scs.append(e2e.scenario("all multi-byte caller %d" % i, [e2e.conn([get, get], audit=e2e.audit(e2e.WIRESERVER, uid=0, pid=pid))]))
             metas.append({"kind": "cmdline"})
+        # callers whose /proc entry exists but whose command line is EMPTY: a zombie (exited, not yet
+        # waited for -- the socket lives on elsewhere) and, where visible, a kernel thread
+        zombie = subprocess.Popen(["/bin/true"])
+        helpers.append(zombie)
+        for _ in range(200):
+            try:
+                if open("/proc/%d/stat" % zombie.pid).read().split(") ")[1][0] == "Z":
+                    break
+            except Exception:
+                break
+            import time as _t
+            _t.sleep(0.01)
+        empty_pids = [zombie.pid]
+        try:
+            if open("/proc/2/cmdline", "rb").read() == b"":
+                empty_pids.append(2)
+        except Exception:
+            pass
+        for pid in empty_pids + [4194000]:      # and a pid with no /proc entry at all
+            for dest in (e2e.IMDS, e2e.WIRESERVER):
+                scs.append(e2e.scenario("caller with empty/absent command line pid %s" % ("zombie" if pid == zombie.pid else pid),
+                                        [e2e.conn([get, get], audit=e2e.audit(dest, uid=0, pid=pid)), e2e.conn([get], audit=e2e.audit(e2e.IMDS, uid=0))]))
+                metas.append({"kind": "emptycmd"})
         # (b) the same caller denied by an enforce rule: errorDetails = "Block unauthorized request: <claims json>"
         deny = {"defaultAccess": "deny", "mode": "enforce", "id": "c13"}
         # The cut of the details (S2) and the cut of the serialised summary (S1) both fall into the run of
